@@ -39,6 +39,7 @@ type c13Op struct {
 	Val  string
 	Ptr  string
 	Rep  int // > 1: the op this many times in a row without any observation in between
+	Tree *TNode // ant/dat: the subtree handed to AddNode; aic: Ptr + Tree.Kids = AddIndividual(ptr, children...)
 }
 
 func c13Path(p []int) string {
@@ -69,6 +70,18 @@ func (o c13Op) req() string {
 		return s
 	case "nwt":
 		return fmt.Sprintf("nwt %s %s", c13Path(o.Path), hexs(o.Tag))
+	case "dnt":
+		return fmt.Sprintf("dnt %s %s", c13Path(o.Path), hexs(o.Tag))
+	case "ant":
+		return fmt.Sprintf("ant %s %s", c13Path(o.Path), encTree(o.Tree))
+	case "dat":
+		return "dat " + encTree(o.Tree)
+	case "aic":
+		return fmt.Sprintf("aic %s %s", hexs(o.Ptr), encForest(o.Tree.Kids))
+	case "nms", "aev":
+		return fmt.Sprintf("%s %d", o.Kind, o.A)
+	case "evo":
+		return fmt.Sprintf("evo %d %s", o.A, hexs(o.Tag))
 	case "gs":
 		return "gs " + c13Path(o.Path)
 	case "ds":
@@ -117,6 +130,20 @@ func (o c13Op) String() string {
 		return fmt.Sprintf("node%v.SetNodes(children %v)", o.Path, o.Idx)
 	case "nwt":
 		return fmt.Sprintf("NodesWithTag(node%v,%s)", o.Path, o.Tag)
+	case "dnt":
+		return fmt.Sprintf("DeleteNodesWithTag(node%v,%s)", o.Path, o.Tag)
+	case "ant":
+		return fmt.Sprintf("node%v.AddNode(NewNode(subtree %s))", o.Path, dumpT(o.Tree))
+	case "dat":
+		return fmt.Sprintf("doc.AddNode(NewNode(subtree %s))", dumpT(o.Tree))
+	case "aic":
+		return fmt.Sprintf("doc.AddIndividual(%q, children %s)", o.Ptr, dumpT(o.Tree))
+	case "nms":
+		return fmt.Sprintf("root#%d.Names()", o.A)
+	case "aev":
+		return fmt.Sprintf("root#%d.AllEvents()", o.A)
+	case "evo":
+		return fmt.Sprintf("root#%d.%s()", o.A, c13EventAPI[o.Tag])
 	case "da":
 		return fmt.Sprintf("doc.AddNode(NewNode(%s,%q,%q))", o.Tag, o.Val, o.Ptr)
 	case "ai":
@@ -170,6 +197,20 @@ func (o c13Op) apiName() string {
 		return "Node.SetNodes"
 	case "da":
 		return "Document.AddNode"
+	case "dnt":
+		return "DeleteNodesWithTag"
+	case "ant":
+		return "Node.AddNode(subtree)"
+	case "dat":
+		return "Document.AddNode(subtree)"
+	case "aic":
+		return "Document.AddIndividual(children)"
+	case "nms":
+		return "IndividualNode.Names"
+	case "aev":
+		return "IndividualNode.AllEvents"
+	case "evo":
+		return "IndividualNode." + c13EventAPI[o.Tag]
 	case "ai":
 		return "Document.AddIndividual"
 	case "af":
@@ -214,6 +255,52 @@ func (o c13Op) apiName() string {
 	return o.Kind
 }
 
+var c13EventAPI = map[string]string{"BIRT": "Births", "BAPM": "Baptisms", "DEAT": "Deaths", "BURI": "Burials"}
+
+// dumpT renders a subtree for failure reports.
+func dumpT(t *TNode) string {
+	if t == nil {
+		return "nil"
+	}
+	s := t.Tag
+	if t.Value != "" {
+		s += fmt.Sprintf(" %q", t.Value)
+	}
+	if len(t.Kids) > 0 {
+		s += "{"
+		for i, k := range t.Kids {
+			if i > 0 {
+				s += ", "
+			}
+			s += dumpT(k)
+		}
+		s += "}"
+	}
+	return s
+}
+
+// c13Build makes the subtree with the variadic constructor (children handed to NewNode, no AddNode
+// call): a tag NewNode panics for anywhere in the tree makes the whole construction fail.
+func c13Build(t *TNode) (n gedcom.Node, ok bool) {
+	defer func() {
+		if r := recover(); r != nil {
+			n, ok = nil, false
+		}
+	}()
+	var kids []gedcom.Node
+	for _, k := range t.Kids {
+		kn, kok := c13Build(k)
+		if !kok {
+			return nil, false
+		}
+		kids = append(kids, kn)
+	}
+	if !c13Plain(t.Tag) {
+		return nil, false
+	}
+	return gedcom.NewNode(gedcom.TagFromString(t.Tag), t.Value, t.Ptr, kids...), true
+}
+
 var c13DateAPI = map[string]string{"BIRT": "AddBirthDate", "BAPM": "AddBaptismDate", "DEAT": "AddDeathDate", "BURI": "AddBurialDate"}
 
 func c13Culprit() string {
@@ -225,7 +312,7 @@ func c13Culprit() string {
 
 func c13IsRead(kind string) bool {
 	switch kind {
-	case "nwt", "inds", "fams", "bp", "if", "sp", "pa", "ch", "hu", "wi", "fc", "dump", "warn", "foreign", "inert", "str", "gs":
+	case "nwt", "inds", "fams", "bp", "if", "sp", "pa", "ch", "hu", "wi", "fc", "nms", "evo", "aev", "dump", "warn", "foreign", "inert", "str", "gs":
 		return true
 	}
 	return false
@@ -431,6 +518,38 @@ func c13View(doc *gedcom.Document, kind string, n gedcom.Node, arg string) strin
 		return c13Show(doc, []gedcom.Node{n.(*gedcom.FamilyNode).Wife()})
 	case "fc":
 		return c13Show(doc, c13Nodes(n.(*gedcom.FamilyNode).Children()))
+	case "nms":
+		var out []gedcom.Node
+		for _, x := range n.(*gedcom.IndividualNode).Names() {
+			out = append(out, x)
+		}
+		return c13Show(doc, out)
+	case "aev":
+		return c13Show(doc, c13Nodes(n.(*gedcom.IndividualNode).AllEvents()))
+	case "evo":
+		var out []gedcom.Node
+		i := n.(*gedcom.IndividualNode)
+		switch arg {
+		case "BIRT":
+			for _, x := range i.Births() {
+				out = append(out, x)
+			}
+		case "BAPM":
+			for _, x := range i.Baptisms() {
+				out = append(out, x)
+			}
+		case "DEAT":
+			for _, x := range i.Deaths() {
+				out = append(out, x)
+			}
+		case "BURI":
+			for _, x := range i.Burials() {
+				out = append(out, x)
+			}
+		default:
+			return "bad"
+		}
+		return c13Show(doc, out)
 	}
 	return "?"
 }
@@ -488,6 +607,11 @@ func c13DumpL(doc *gedcom.Document, withLabels bool) (s string, labels []string)
 			for _, v := range []string{"if", "sp", "pa", "ch"} {
 				add("individual "+name+"."+viewName[v], c13View(doc, v, r, ""))
 			}
+			add("individual "+name+".Names()", c13View(doc, "nms", r, ""))
+			for _, t := range []string{"BIRT", "BAPM", "DEAT", "BURI"} {
+				add("individual "+name+"."+c13EventAPI[t]+"()", c13View(doc, "evo", r, t))
+			}
+			add("individual "+name+".AllEvents()", c13View(doc, "aev", r, ""))
 		}
 		if isF {
 			for _, v := range []string{"hu", "wi", "fc"} {
@@ -828,6 +952,47 @@ func (d *c13Doc) apply(o c13Op) (obs string) {
 			return "bad"
 		}
 		return c13View(doc, o.Kind, n, "")
+	case "nms", "aev", "evo":
+		n := d.indi(o.A)
+		if n == nil {
+			return "bad"
+		}
+		return c13View(doc, o.Kind, n, o.Tag)
+	case "dnt":
+		n := d.resolve(o.Path)
+		if n == nil {
+			return "bad"
+		}
+		gedcom.DeleteNodesWithTag(n, gedcom.TagFromString(o.Tag))
+	case "ant":
+		n := d.resolve(o.Path)
+		if n == nil {
+			return "bad"
+		}
+		t, ok := c13Build(o.Tree)
+		if !ok {
+			return "bad"
+		}
+		n.AddNode(t)
+	case "dat":
+		if !d.ptrFreeOfIndi(o.Tree.Ptr) {
+			return "bad"
+		}
+		t, ok := c13Build(o.Tree)
+		if !ok {
+			return "bad"
+		}
+		doc.AddNode(t)
+	case "aic":
+		var kids []gedcom.Node
+		for _, k := range o.Tree.Kids {
+			kn, ok := c13Build(k)
+			if !ok {
+				return "bad"
+			}
+			kids = append(kids, kn)
+		}
+		doc.AddIndividual(o.Ptr, kids...)
 	case "nwt":
 		n := d.resolve(o.Path)
 		if n == nil {
@@ -1439,7 +1604,52 @@ func (d *c13Doc) randomOp(r *Rand, fresh *int) c13Op {
 		return fmt.Sprintf("%s%d", prefix, 100+*fresh)
 	}
 	for {
-		switch r.Intn(28) {
+		switch r.Intn(34) {
+		case 28, 29: // DeleteNodesWithTag on a record or a node below one
+			p := randPath()
+			if r.Chance(2, 3) && len(inds)+len(fams) > 0 {
+				p = []int{pick(append(append([]int{}, inds...), fams...))}
+			}
+			tag := r.Pick([]string{"NAME", "BIRT", "DEAT", "FAMS", "FAMC", "HUSB", "WIFE", "CHIL", "NOTE", "DATE", "SEX", "RESI"})
+			if n := d.resolve(p); n != nil && len(n.Nodes()) > 0 && r.Chance(1, 2) {
+				tag = n.Nodes()[r.Intn(len(n.Nodes()))].Tag().Tag()
+			}
+			return c13Op{Kind: "dnt", Path: p, Tag: tag}
+		case 30: // AddNode of a whole subtree built by the variadic constructor
+			p := randPath()
+			if r.Chance(2, 3) && len(inds)+len(fams) > 0 {
+				p = []int{pick(append(append([]int{}, inds...), fams...))}
+			}
+			return c13Op{Kind: "ant", Path: p, Tree: c13RandTree(r, 0)}
+		case 31:
+			if r.Bool() {
+				t := c13RandTree(r, 0)
+				t.Ptr = newPtr("N")
+				return c13Op{Kind: "dat", Tree: t}
+			}
+			kids := []*TNode{}
+			for i := r.Intn(4); i > 0; i-- {
+				kids = append(kids, c13RandTree(r, 1))
+			}
+			if len(fams) > 0 && r.Chance(1, 2) {
+				kids = append(kids, T(r.Pick([]string{"FAMS", "FAMC"}), "@"+roots[pick(fams)].Pointer()+"@", ""))
+			}
+			ptr := newPtr("I")
+			if r.Chance(1, 4) {
+				ptr = "I99"
+			}
+			return c13Op{Kind: "aic", Ptr: ptr, Tree: T("INDI", "", ptr, kids...)}
+		case 32, 33:
+			if len(inds) == 0 {
+				continue
+			}
+			switch r.Intn(3) {
+			case 0:
+				return c13Op{Kind: "nms", A: pick(inds)}
+			case 1:
+				return c13Op{Kind: "aev", A: pick(inds)}
+			}
+			return c13Op{Kind: "evo", A: pick(inds), Tag: r.Pick([]string{"BIRT", "BAPM", "DEAT", "BURI", "BURI", "MARR"})}
 		case 0, 1:
 			tag := r.Pick([]string{"NAME", "NAME", "BIRT", "DEAT", "NOTE", "FAMS", "FAMC", "MARR", "SEX", "_UID"})
 			val := ""
@@ -1594,6 +1804,41 @@ func (d *c13Doc) randomOp(r *Rand, fresh *int) c13Op {
 	}
 }
 
+// c13RandTree draws a subtree of plain tags (now and then one NewNode panics for, which makes the
+// whole call fail): events with DATE/PLAC/MAP below, names with parts, notes.
+func c13RandTree(r *Rand, depth int) *TNode {
+	if r.Chance(1, 25) {
+		return T("NOTE", "n", "", T(r.Pick([]string{"HUSB", "CHIL", "INDI", "FAM", "WIFE"}), "@I1@", ""))
+	}
+	switch r.Intn(5) {
+	case 0:
+		t := T(r.Pick([]string{"BIRT", "DEAT", "BAPM", "BURI", "RESI", "EVEN", "MARR"}), "", "")
+		if r.Chance(3, 4) {
+			t.Kids = append(t.Kids, T("DATE", r.Pick(c13Years), ""))
+		}
+		if r.Chance(1, 2) {
+			pl := T("PLAC", "Sydney, Australia", "")
+			if r.Chance(1, 2) {
+				pl.Kids = append(pl.Kids, T("MAP", "", "", T("LATI", "S33.8", ""), T("LONG", "E151.2", "")))
+			}
+			t.Kids = append(t.Kids, pl)
+		}
+		if r.Chance(1, 3) {
+			t.Kids = append(t.Kids, T("DATE", r.Pick(c13Years), ""))
+		}
+		return t
+	case 1:
+		return T("NAME", r.Pick(c13Names), "", T("GIVN", "G", ""), T("SURN", "S", ""))
+	case 2:
+		return T("NOTE", r.Pick(c13Awkward), "", T("SOUR", "@S1@", "", T("PAGE", "1", "")))
+	case 3:
+		if depth < 3 {
+			return T("_X", "x", "", c13RandTree(r, depth+1), c13RandTree(r, depth+1))
+		}
+	}
+	return T(r.Pick([]string{"NAME", "NOTE", "_UID", "FAMS"}), r.Pick([]string{"A /B/", "n", "@F1@"}), "")
+}
+
 func (d *c13Doc) randomRead(r *Rand) c13Op {
 	switch r.Intn(6) {
 	case 4:
@@ -1633,6 +1878,8 @@ var c13Alphabet = []c13Op{
 }
 
 var c13ThoroughExtra = []c13Op{
+	{Kind: "dnt", Path: []int{3}, Tag: "HUSB"}, // DeleteNodesWithTag(F1, HUSB)
+	{Kind: "aic", Ptr: "I3", Tree: T("INDI", "", "I3", T("NAME", "K /S/", ""), T("FAMC", "@F1@", ""))},
 	{Kind: "ds", Idx: []int{0, 2, 3}},  // doc.SetNodes(all but I1)
 	{Kind: "dn", Path: []int{3}, A: 0}, // F1.DeleteNode(first child)
 	{Kind: "shp", A: 3, Ptr: "I2"},     // F1.SetHusbandPointer(I2)
@@ -1753,6 +2000,26 @@ var c13Directed = [][]c13Op{
 	// duplicate pointers: the later record wins, deleting it gives the earlier one back
 	{{Kind: "ai", Ptr: "I1"}, {Kind: "dd", A: 4}},
 	{{Kind: "af", Ptr: "F1"}, {Kind: "dd", A: 4}},
+	// DeleteNodesWithTag with warm caches: names / births of an individual, husband and children of a
+	// family (the individuals' families change), a tag nobody has, one level down
+	{{Kind: "dnt", Path: []int{1}, Tag: "NAME"}, {Kind: "nm", A: 1, Val: "X /Y/"}},
+	{{Kind: "dnt", Path: []int{1}, Tag: "BIRT"}, {Kind: "aed", A: 1, Tag: "BIRT", Val: "1851"}},
+	{{Kind: "dnt", Path: []int{3}, Tag: "HUSB"}, {Kind: "sh", A: 3, B: 2}},
+	{{Kind: "dnt", Path: []int{3}, Tag: "CHIL"}, {Kind: "ac", A: 3, B: 1}},
+	{{Kind: "dnt", Path: []int{1}, Tag: "RESI"}, {Kind: "dnt", Path: []int{1, 1}, Tag: "DATE"}, {Kind: "dnt", Path: []int{9}, Tag: "NAME"}},
+	// the named views of an individual as single reads (also part of every dump)
+	{{Kind: "nms", A: 1}, {Kind: "evo", A: 1, Tag: "BIRT"}, {Kind: "aev", A: 1}, {Kind: "evo", A: 1, Tag: "MARR"}, {Kind: "nms", A: 3}, {Kind: "aev", A: 0}},
+	// AddNode of a subtree built by the variadic constructor, on an individual, on a family, two levels
+	// down; a subtree NewNode refuses; then edits inside the new subtree
+	{{Kind: "ant", Path: []int{1}, Tree: T("BIRT", "", "", T("DATE", "1851", ""), T("PLAC", "Sydney", "", T("MAP", "", "", T("LATI", "S1", ""))))},
+		{Kind: "aed", A: 1, Tag: "BIRT", Val: "1900"}, {Kind: "dnt", Path: []int{1, 2}, Tag: "DATE"}, {Kind: "dnt", Path: []int{1}, Tag: "BIRT"}},
+	{{Kind: "ant", Path: []int{3}, Tree: T("MARR", "", "", T("DATE", "1870", ""))}, {Kind: "ant", Path: []int{3, 2}, Tree: T("PLAC", "Here", "", T("MAP", "", ""))}},
+	{{Kind: "ant", Path: []int{1}, Tree: T("NOTE", "n", "", T("HUSB", "@I2@", ""))}, {Kind: "ant", Path: []int{7}, Tree: T("NOTE", "n", "")}, {Kind: "dn", Path: []int{1}, A: 0}},
+	// Document.AddNode of a subtree; AddIndividual with children (a name, a birth, a link to the family)
+	{{Kind: "dat", Tree: T("SOUR", "", "S1", T("TITL", "t", ""), T("NOTE", "n", "", T("CONT", "m", "")))}, {Kind: "dat", Tree: T("NOTE", "", "I1", T("CONT", "m", ""))}, {Kind: "dd", A: 4}},
+	{{Kind: "aic", Ptr: "I3", Tree: T("INDI", "", "I3", T("NAME", "Kid /Smith/", "", T("GIVN", "Kid", "")), T("BIRT", "", "", T("DATE", "1880", "")), T("FAMC", "@F1@", ""))},
+		{Kind: "ac", A: 3, B: 4}, {Kind: "aed", A: 4, Tag: "BIRT", Val: "1881"}, {Kind: "dnt", Path: []int{4}, Tag: "NAME"}},
+	{{Kind: "aic", Ptr: "I1", Tree: T("INDI", "", "I1", T("NAME", "Twin /Smith/", ""))}, {Kind: "aic", Ptr: "I4", Tree: T("INDI", "", "I4", T("NOTE", "n", "", T("CHIL", "@I1@", "")))}, {Kind: "dd", A: 4}},
 }
 
 // a document whose family refers to a person that does not exist yet (roots: 0 I1, 1 F1)
@@ -1763,6 +2030,16 @@ var c13DirectedDangling = [][]c13Op{
 	{{Kind: "ai", Ptr: "I9"}},
 	{{Kind: "ai", Ptr: "I8"}},
 	{{Kind: "ai", Ptr: "I9"}, {Kind: "dd", A: 2}},
+	// the same through AddIndividual with children
+	{{Kind: "aic", Ptr: "I9", Tree: T("INDI", "", "I9", T("NAME", "W /X/", ""), T("FAMS", "@F1@", ""))}, {Kind: "dnt", Path: []int{1}, Tag: "WIFE"}},
+	{{Kind: "aic", Ptr: "I8", Tree: T("INDI", "", "I8", T("BIRT", "", "", T("DATE", "1900", "")), T("FAMC", "@F1@", ""))}, {Kind: "dnt", Path: []int{1}, Tag: "CHIL"}},
+}
+
+// on c13RepeatedNamesDoc (roots: 0 I1, 1 F1): matching children interleaved with others
+var c13DirectedRepeated = [][]c13Op{
+	{{Kind: "nms", A: 0}, {Kind: "dnt", Path: []int{0}, Tag: "NAME"}, {Kind: "nms", A: 0}},
+	{{Kind: "aev", A: 0}, {Kind: "dnt", Path: []int{0}, Tag: "BIRT"}, {Kind: "aev", A: 0}, {Kind: "dnt", Path: []int{0}, Tag: "DEAT"}},
+	{{Kind: "nm", A: 0, Val: "John /Smith/"}, {Kind: "nm", A: 0, Val: "John /Smith/"}, {Kind: "dnt", Path: []int{0}, Tag: "NAME"}},
 }
 
 // an individual whose first name is repeated between other children, and an empty death
@@ -2171,7 +2448,7 @@ func c13Publish(c *Ctx, text string, history []c13Step) {
 
 func init() {
 	runners["C13"] = func(c *Ctx) {
-		c.Rule = "histories of public-API edits and reads on one document; after every op every view named in the property is dumped (twice more after the global node cache was reset by the oracle's re-decode, so caches are warm at the next edit). Streams: exhaustive sequences over a 9-op alphabet on a 2-person/1-family document (quick: all sequences of <= 4 ops; thorough: <= 5 ops, plus <= 3 ops over a 13-op alphabet), random histories of 10-200 ops on random family graphs, every read-only operation inserted at every position of base histories; read-only operations (in-process ones, and publish x 3 living modes + diff page rendering in a child process) on marriage graphs where people have 2-3 spouses in every living/deceased order, comparing every view of every record before/after and with a fresh decode; distinct = (op kind, did a view change, rejected?)"
+		c.Rule = "histories of public-API edits and reads on one document; after every op every view named in the property is dumped (twice more after the global node cache was reset by the oracle's re-decode, so caches are warm at the next edit). Streams: exhaustive sequences over a 9-op alphabet on a 2-person/1-family document (quick: all sequences of <= 4 ops; thorough: <= 5 ops, plus <= 3 ops over a 15-op alphabet incl. DeleteNodesWithTag and AddIndividual with children), random histories of 10-200 ops on random family graphs, every read-only operation inserted at every position of base histories; read-only operations (in-process ones, and publish x 3 living modes + diff page rendering in a child process) on marriage graphs where people have 2-3 spouses in every living/deceased order, comparing every view of every record before/after and with a fresh decode; distinct = (op kind, did a view change, rejected?)"
 		// facts that could not be located are tied by correspondence only
 		if _, facts, err := c13Facts(); err == nil {
 			var un []string
@@ -2262,6 +2539,16 @@ func init() {
 			}
 			r.finish()
 		}
+		for _, hist := range c13DirectedRepeated {
+			r, err := c13NewRunner(c, c13RepeatedNamesDoc)
+			if err != nil {
+				panic(err)
+			}
+			for _, o := range hist {
+				r.do(o)
+			}
+			r.finish()
+		}
 		for _, hist := range c13DirectedDangling {
 			r, err := c13NewRunner(c, c13DanglingDoc)
 			if err != nil {
@@ -2303,7 +2590,7 @@ func init() {
 		}
 		rec(nil)
 		c.Count(fmt.Sprintf("stream=exhaustive<=%d", maxLen))
-		if !c.Quick() { // the four extra ops, up to length 3 over the 13-op alphabet
+		if !c.Quick() { // the six extra ops, up to length 3 over the 15-op alphabet
 			alphabet = append(append([]c13Op{}, c13Alphabet...), c13ThoroughExtra...)
 			maxLen = 3
 			rec(nil)
